@@ -644,6 +644,13 @@ func flatCatalogues(c *Ctx) (singles, pairs []gen.Feature) {
 }
 
 func runFlatProp(c *Ctx, fp *flatProp) {
+	if fp.ID == "C10" {
+		// every query is also issued before Flatten: an answer memoised by the analyzer must not survive the rewrite
+		h.PreFlatten = func(an *analysis.Spec) {
+			defer func() { _ = recover() }()
+			getterSnapshot(an)
+		}
+	}
 	singles, pairs := flatCatalogues(c)
 	c.Bounds["catalogue_singles"] = len(singles)
 	c.Bounds["catalogue_pairs"] = len(pairs)
@@ -793,6 +800,12 @@ func flatReplay(fp *flatProp) func(v *Violation) string {
 		in := &flatInput{B: &bundle, Spec: specTraits(&bundle)}
 		if !in.prepare() {
 			return ""
+		}
+		if fp.ID == "C10" {
+			h.PreFlatten = func(an *analysis.Spec) {
+				defer func() { _ = recover() }()
+				getterSnapshot(an)
+			}
 		}
 		if v.Generator == "flatten-chain" {
 			ob2, _ := json.Marshal(v.Env["opts2"])
